@@ -5,7 +5,7 @@ from vf import oracle
 
 
 def container_run(layout, alloc, r0=0, d0=1, m0=None, r1=0, d1=1, m1=None, r2=0, d2=1, m2=None,
-                  r3=0, d3=1, m3=None, cap=400, K=14, want=""):
+                  r3=0, d3=1, m3=None, cap=400, K=14, tps=1, want=""):
     """layout: list of operators, each a list of segment slots (0..3); slot k uses (r_k, d_k, m_k):
     read GB, baseline CPU seconds ('const' law, 1 CPU, 1 tick/s), fixed memory or None (growing)."""
     reset_globals()
@@ -20,11 +20,11 @@ def container_run(layout, alloc, r0=0, d0=1, m0=None, r1=0, d1=1, m1=None, r2=0,
             op.add_segment(Segment(baseline_cpu_seconds=d, cpu_scaling="const", memory_gb=m, storage_read_gb=r))
         ops.append(op)
         prev = op
-    ticks = oracle.plan(ops_segs, 1)
+    ticks = oracle.plan(ops_segs, tps)
     oom_at, total = oracle.run_plan(ticks, alloc)
     if total > K:
         return ""       # outside the bound of this scenario
-    pool = ResourcePool(pool_id=0, cpu_pool=2, ram_pool=cap, ticks_per_second=1)
+    pool = ResourcePool(pool_id=0, cpu_pool=2, ram_pool=cap, ticks_per_second=tps)
     a = Assignment(ops=ops, cpu=1, ram=alloc, priority=Priority.BATCH_PIPELINE, pool_id=0, pipeline_id="p")
     end = oom_at if oom_at is not None else total - 1
     n = len(ops)
@@ -90,7 +90,7 @@ def container_run(layout, alloc, r0=0, d0=1, m0=None, r1=0, d1=1, m1=None, r2=0,
         for segs in ops_segs:
             tot = 0
             for (r, d, m) in segs:
-                tot = tot + r // 20 + d
+                tot = tot + (r * tps) // 20 + d * tps
             if tot == 0:
                 z = True
         return "REACHED" if z else ""
